@@ -21,12 +21,18 @@
 (*                             REQUESTED close of a not-yet-closed server  *)
 (*                             connection                                  *)
 (*   FixTimersStopped   FALSE: search-request timers survive stop()        *)
+(*   FixStaleInit       FALSE: a session closed inside its login burst     *)
+(*                             still gets its tracking workers: they outlive*)
+(*                             a stop(), and after a reconnect the friends  *)
+(*                             are not requested again                      *)
 (*   FixSelfAwait       FALSE: a loss detected by a tracking worker's own  *)
 (*                             write makes the tracking manager await the  *)
 (*                             task it runs in; CLOSED never reaches the   *)
 (*                             client, the session is not destroyed        *)
 (*   FixQueueOnce       FALSE: a superseded queue-remotely task of a       *)
 (*                             download is not cancelled by stop() (C06)   *)
+(* (the last two are repaired by fixes/C15-2 and fixes/C06-1, the others   *)
+(*  by fixes/C16-1 .. C16-5)                                               *)
 (* With all of them TRUE every property below holds; with one FALSE TLC    *)
 (* gives the counterexample (MC_asCode_*.cfg).                             *)
 (*                                                                         *)
@@ -45,7 +51,9 @@ CONSTANTS
   MaxLosses,           \* fault budget: server losses per behaviour
   MaxLogins,           \* login() calls by the user per behaviour
   MaxConnFail,         \* failed reconnect attempts per behaviour
-  FixAutoJoin, FixDistStopped, FixWatchdogStopped, FixTimersStopped, FixSelfAwait, FixQueueOnce
+  Env,                 \* which optional environment actions are on: subset of
+                       \* {"exec", "peerin", "userdisc", "midburst"} (midburst = stop / disconnect inside the burst)
+  FixAutoJoin, FixDistStopped, FixWatchdogStopped, FixTimersStopped, FixStaleInit, FixSelfAwait, FixQueueOnce
 
 ----------------------------------------------------------------------------
 \* The settings matrix
@@ -132,17 +140,19 @@ AllBgKinds == {"pparent",   \* potential-parent connect  (distributed.py:380-394
 CoreKinds  == {"core",      \* user / transfer management, progress reporting (started in start())
                "ping",      \* server.py: started on CONNECTED, cancelled on CLOSING
                "reader",    \* server reader loop, started after a successful login
-               "track"}     \* tracking workers of self + friends
+               "track",     \* tracking workers of self + friends
+               "strack",    \* as-code only: workers started for a session that was lost inside its burst
+               "ztrack"}    \* as-code only: ... that was stopped inside its burst (after users.stop())
 ConnectKinds == {"pparent", "ctp"}      \* activities that end by opening a peer connection
 DerivedKinds == {"users", "rooms", "tracking", "distparams"}
 
 \* cancelled when the server connection goes CLOSING / CLOSED (server.py:61, user/manager.py:712)
-DiesWithServer == {"ping", "reader", "track", "retry"}
+DiesWithServer == {"ping", "reader", "track", "retry", "strack"}
 \* cancelled by Network.disconnect() (network.py:1183)
 DiesWithNetwork == DiesWithServer \cup {"ctp"}
 \* cancelled by the services' stop() (client.py:148-150)
 DiesWithServices ==
-  {"core", "track", "retry", "sreply"}
+  {"core", "track", "strack", "retry", "sreply"}
     \cup (IF FixQueueOnce THEN {"xfer"} ELSE {})
     \cup (IF FixDistStopped THEN {"pparent"} ELSE {})
     \cup (IF FixTimersStopped THEN {"stimer"} ELSE {})
@@ -217,8 +227,11 @@ AdvertiseCore(f) ==
   /\ lpc = "burst" /\ session /\ srv = "connected"
   /\ sent' = sent \cup {f}
   /\ UNCHANGED <<cfg, plan, phase, spc, srv, reason, session, lpc, epi, watchdog, losses, logins, cfails, lastExec>>
-BurstLeft == Cardinality(sent) < Len(plan.burst)
-Advertise == BurstLeft /\ AdvertiseCore(plan.burst[Cardinality(sent) + 1]) /\ UNCHANGED ovars
+\* user/manager.py:467-482 as pinned (FixStaleInit = FALSE): workers left by a session that was lost
+\* inside its burst already carry the friend flags, track_friends() requests nothing
+Todo == SelectSeq(plan.burst, LAMBDA f : ~("strack" \in bg /\ f[1] = "adduser"))
+BurstLeft == Cardinality(sent) < Len(Todo)
+Advertise == BurstLeft /\ AdvertiseCore(Todo[Cardinality(sent) + 1]) /\ UNCHANGED ovars
 
 \* the burst is over (first quiescence after the login); the reader runs, the tracking workers
 \* exist, the server's own post-login information has been taken in
@@ -228,7 +241,7 @@ BurstEndCore ==
   /\ UNCHANGED <<cfg, plan, phase, spc, srv, reason, session, sent, epi, watchdog, losses, logins, cfails, lastExec>>
 BurstEnd ==
   /\ ~BurstLeft /\ BurstEndCore
-  /\ bg' = bg \cup {"reader", "track"} /\ derived' = DerivedKinds /\ UNCHANGED open
+  /\ bg' = (bg \ {"strack"}) \cup {"reader", "track"} /\ derived' = DerivedKinds /\ UNCHANGED open
 
 \* The server connection is lost (connection.py _read/_send -> disconnect(reason), CLOSING then
 \* CLOSED).  client.py:368-374: the session is destroyed (emitted = events seen so far);
@@ -239,8 +252,11 @@ CloseCore(r, emitted) ==
   /\ session' = FALSE /\ lpc' = "idle"
   /\ epi' = [had |-> session, n |-> emitted]
   /\ watchdog' = IF watchdog = "off" \/ ~Unrequested(r) THEN "off" ELSE "sleeping"
+\* the rest of the SessionInitialized dispatch runs on the dead connection (see FixStaleInit)
+StaleInit == ~FixStaleInit /\ lpc = "burst"
 CloseObs ==
-  /\ open' = open \ {"server"} /\ derived' = {} /\ bg' = bg \ DiesWithServer
+  /\ open' = open \ {"server"} /\ derived' = {}
+  /\ bg' = (bg \ DiesWithServer) \cup (IF StaleInit THEN {"strack"} ELSE {})
 
 ServerLossCore(kind, emitted) ==
   /\ phase = "started" /\ srv = "connected" /\ lpc # "auto"
@@ -265,6 +281,7 @@ ServerLossStuck(kind) ==
 \* the application disconnects from the server itself (network.py:292 disconnect_server)
 UserDisconnectCore(emitted) ==
   /\ phase = "started" /\ srv = "connected" /\ lpc # "auto"
+  /\ "userdisc" \in Env /\ (lpc = "burst" => "midburst" \in Env)
   /\ CloseCore("requested", emitted)
   /\ UNCHANGED <<cfg, plan, phase, spc, sent, losses, logins, cfails, lastExec>>
 UserDisconnect == UserDisconnectCore(IF session THEN 1 ELSE 0) /\ CloseObs
@@ -291,7 +308,7 @@ ReconnectFail == ReconnectFailCore /\ UNCHANGED ovars
 
 \* client.py:268-283 execute(): refused iff there is no session
 ExecuteCore ==
-  /\ phase = "started" /\ lastExec.res = "none" /\ lpc = "idle"
+  /\ phase = "started" /\ lastExec.res = "none" /\ lpc = "idle" /\ "exec" \in Env
   /\ lastExec' = [res |-> IF session THEN "sent" ELSE "refused", sess |-> session]
   /\ UNCHANGED <<cfg, plan, phase, spc, srv, reason, session, lpc, sent, epi, watchdog, losses, logins, cfails>>
 Execute == ExecuteCore /\ UNCHANGED ovars
@@ -300,7 +317,7 @@ Execute == ExecuteCore /\ UNCHANGED ovars
 \* server connection (unless already closed), the listeners and the peer connections closed with
 \* REQUESTED.  Design: the watchdog is off afterwards whatever the connection state was.
 StopBeginCore(emitted) ==
-  /\ phase = "started" /\ lpc # "auto"
+  /\ phase = "started" /\ lpc # "auto" /\ (lpc = "burst" => "midburst" \in Env)
   /\ phase' = "stopping" /\ spc' = "svc"
   /\ IF srv \in {"connected", "connecting"}
        THEN /\ srv' = "closed" /\ reason' = "requested"
@@ -311,7 +328,8 @@ StopBeginCore(emitted) ==
   /\ UNCHANGED <<cfg, plan, sent, losses, logins, cfails, lastExec>>
 StopBegin ==
   /\ StopBeginCore(IF session THEN 1 ELSE 0)
-  /\ open' = {} /\ derived' = {} /\ bg' = bg \ DiesWithNetwork
+  /\ open' = {} /\ derived' = {}
+  /\ bg' = (bg \ DiesWithNetwork) \cup (IF StaleInit THEN {"ztrack"} ELSE {})
 
 \* second stretch: every service's stop(), gather of the cancelled tasks, store_data()
 StopServicesCore ==
@@ -346,7 +364,7 @@ PeerOpens(k) ==
 
 \* a peer connects to one of our listening ports
 PeerIn ==
-  /\ phase = "started" /\ lpc = "idle" /\ cfg.ports # {} /\ "peer" \notin open
+  /\ phase = "started" /\ lpc = "idle" /\ cfg.ports # {} /\ "peer" \notin open /\ "peerin" \in Env
   /\ open' = open \cup {"peer"}
   /\ UNCHANGED <<mvars, bg, derived>>
 
